@@ -272,7 +272,7 @@ CHECKS = {
     },
 }
 
-HOOK_COMMITS = ["78dca42", "83c0526", "7e7e701", "cedc0ca", "1e0b4ae", "49a3800"]
+HOOK_COMMITS = ["78dca42", "83c0526", "7e7e701", "cedc0ca", "1e0b4ae", "49a3800", "fab6de6"]
 
 ENGINES = [
     {"name": "damagemc", "path": "harness/damagemc", "serves_properties": ["C09"], "kind_free_text": "exhaustive single (and paired) damage of finished SST / log / manifest files, read programs compared with the pristine observation"},
